@@ -53,6 +53,10 @@ class Interp:
         self.depth = 0
         self.on_range = None  # on_range(interp, value) -> list: how a range-for visits a modelled container
 
+    def set_order(self, o):
+        """the order in which an (unordered) set is visited: unspecified in C++, so a client may evaluate under both directions"""
+        return sorted(o, reverse=bool(getattr(self, 'reverse_sets', False)))
+
     def tick(self):
         self.steps += 1
         if self.steps > self.max_steps:
@@ -473,9 +477,54 @@ class Interp:
                 raise OutOfFragment('vector::insert form')
             if last == 'reserve' or last == 'shrink_to_fit':
                 return None
+            if last == 'erase' and len(args) == 1:
+                pos = self.eval(fn, S[args[0]], env)
+                if isinstance(pos, tuple) and len(pos) == 3 and pos[0] == 'it' and pos[1] is o:
+                    if not (0 <= pos[2] < len(o)):
+                        raise OutOfFragment('vector::erase(end()) at %s: undefined behaviour' % fn.loc(n))
+                    del o[pos[2]]
+                    return ('it', o, pos[2])
+                raise OutOfFragment('vector::erase form at %s' % fn.loc(n))
+            if last == 'emplace_back' and not args:
+                et = (n.get('callee') or '')
+                v = set() if 'std::vector<std::unordered_set<' in et or 'std::vector<std::set<' in et else [] if 'std::vector<std::vector<' in et else None
+                if v is None:
+                    raise OutOfFragment('emplace_back() of an unmodelled element type at %s' % fn.loc(n))
+                o.append(v)
+                return v
+            return NOT_HANDLED
+        if k == 'CallExpr' and cs in ('std::rbegin', 'std::rend', 'std::crbegin', 'std::crend') and n.get('args'):
+            o = self.eval(fn, S[n['args'][0]], env)
+            if isinstance(o, list):
+                return ('rit', o, 0 if 'begin' in cs else len(o))
+            return NOT_HANDLED
+        if k == 'CallExpr' and cs == 'std::reverse' and len(n.get('args', [])) == 2:
+            b, e = (self.eval(fn, S[a], env) for a in n['args'])
+            if isinstance(b, tuple) and isinstance(e, tuple) and b[0] == 'it' and e[0] == 'it' and b[1] is e[1]:
+                b[1][b[2]:e[2]] = b[1][b[2]:e[2]][::-1]
+                return None
+            raise OutOfFragment('std::reverse form at %s' % fn.loc(n))
+        if k == 'CallExpr' and cs == 'std::back_inserter' and n.get('args'):
+            o = self.eval(fn, S[n['args'][0]], env)
+            if isinstance(o, list):
+                return ('backins', o)
+            return NOT_HANDLED
+        if k == 'CXXOperatorCallExpr' and cs.startswith('std::back_insert_iterator::operator') and n.get('args'):
+            tgt = self.eval(fn, S[n['args'][0]], env)
+            if isinstance(tgt, tuple) and tgt and tgt[0] == 'backins':
+                if n.get('op') == '=' and len(n['args']) == 2:
+                    tgt[1].append(self.eval(fn, S[n['args'][1]], env))
+                return tgt                               # *it, ++it, it++ are the iterator itself
             return NOT_HANDLED
         if k == 'CallExpr' and cs in ('std::begin', 'std::end', 'std::cbegin', 'std::cend', 'std::size', 'std::ssize', 'std::empty', 'std::next') and n.get('args'):
             o = self.eval(fn, S[n['args'][0]], env)
+            if isinstance(o, (set, frozenset)) and cs in ('std::begin', 'std::end', 'std::cbegin', 'std::cend'):
+                snaps = self.__dict__.setdefault('_setsnaps', {})
+                snap = snaps.get(id(o))
+                if snap is None or snap[0] != o:
+                    snap = (set(o), self.set_order(o))
+                    snaps[id(o)] = snap
+                return ('it', snap[1], 0 if 'begin' in cs else len(snap[1]))
             if cs == 'std::next' and isinstance(o, tuple) and o[0] == 'it':
                 return ('it', o[1], o[2] + 1)
             if isinstance(o, (bytes, bytearray, dict, set)) and not isinstance(o, Obj) and cs in ('std::size', 'std::ssize', 'std::empty'):
@@ -623,6 +672,8 @@ class Interp:
             if len(args) == 1 and isinstance(args[0], tuple):
                 return args[0]
             return tuple(args)
+        if k == 'CXXMemberCallExpr' and 'obj' in n and cs.startswith(('std::unordered_set::', 'std::set::')) and last in ('reserve', 'rehash'):
+            return None
         if k == 'CXXMemberCallExpr' and 'obj' in n and cs.startswith(('std::unordered_set::', 'std::set::')) and last in ('insert', 'emplace', 'erase', 'size', 'empty', 'clear'):
             o = self.eval(fn, S[n['obj']], env)
             if isinstance(o, set):
@@ -746,6 +797,20 @@ class Interp:
                 same = (a is b) or (a is None and b is None)
                 return same if op == '==' else not same
         return NOT_HANDLED
+
+    def default_construct(self, cls):
+        """an object of a repository class with every field set by its default member initialiser (implicit default constructor)"""
+        rec = self.db.record(cls, required=False)
+        if rec is None:
+            raise OutOfFragment('record %s not found' % cls)
+        this = Obj()
+        this['__cls__'] = cls
+        for f in rec['fields']:
+            initfn = self.db.fn(cls + '::' + f['name'] + '::<init>', required=False)
+            if initfn is None:
+                raise OutOfFragment('field %s::%s has no default member initialiser' % (cls, f['name']))
+            this[f['name']] = self.eval(initfn, initfn.stmts[initfn.body], {'this': this})
+        return this
 
     def construct(self, ctor, this, args):
         env = {'this': this}
@@ -956,7 +1021,7 @@ class Interp:
             if isinstance(rng, (bytes, bytearray)):
                 rng = list(rng)
             if isinstance(rng, (set, frozenset)):
-                rng = sorted(rng)
+                rng = self.set_order(rng)
             if not isinstance(rng, (list, tuple)) and not (isinstance(rng, dict) and not isinstance(rng, Obj)):
                 raise OutOfFragment('range-for over non-list')
             lv = S[n['loopvar']]
